@@ -134,3 +134,83 @@ func runBlockwiseUploads(rec *vr.Rec, values []uint32) {
 		rec.Count("blockwise_upload_replies_as_for_single_message_requests", 1)
 	}
 }
+
+// optionlessAfterNoResponse: No-Response is a property of ONE request. The next request on the same connection - here one
+// that carries no options at all (a GET of the root resource) - is answered normally, whatever the previous one said.
+func optionlessAfterNoResponse(rec *vr.Rec) {
+	var mu sync.Mutex
+	errs := map[string]error{}
+	s := sim.NewMemSession()
+	cc := sim.NewUDPConn(s, sim.UDPOpts{
+		Mutate: func(cfg *udpclient.Config) { cfg.GetMID = func() int32 { return 40000 + 0xffff/2 } },
+		Handler: func(w *responsewriter.ResponseWriter[*udpclient.Conn], r *pool.Message) {
+			b, _ := r.ReadBody()
+			if len(b) != 1 {
+				return
+			}
+			err := w.SetResponse(codes.Code(b[0]), message.TextPlain, bytes.NewReader([]byte("r")))
+			mu.Lock()
+			errs[string(r.Token())] = err
+			mu.Unlock()
+		}})
+	defer cc.Close()
+	i := 0
+	for _, v := range []uint32{2, 8, 16, 26, 10, 24} {
+		for _, con := range []bool{true, false} {
+			for _, code := range []uint8{0x45, 0x84, 0xa0} {
+				i++
+				typ := uint8(1)
+				if con {
+					typ = 0
+				}
+				c := map[string]any{"scenario": "request without any option right after a request with No-Response", "previous_no_response": v, "confirmable": con, "handler_code": code}
+				tokA, tokB := []byte{0xa0, byte(i)}, []byte{0xb0, byte(i)}
+				midA, midB := uint16(3000+2*i), uint16(3001+2*i)
+				// A: every class suppressed that v names; the handler answers with a code of a suppressed class if there is one
+				codeA := uint8(0x45)
+				if v&2 == 0 {
+					codeA = 0x84
+					if v&8 == 0 {
+						codeA = 0xa0
+					}
+				}
+				before := len(s.Log())
+				_ = cc.Process(nil, ref.EncodeUDP(ref.Msg{Type: 0, Code: 1, MID: midA, Token: tokA, Opts: []ref.Opt{{ID: 11, Val: []byte("a")}, {ID: 258, Val: ref.Uint(v)}}, Payload: []byte{codeA}}))
+				sim.WaitFor(3*time.Second, func() bool { return len(s.Log()) > before })
+				mark := len(s.Log())
+				_ = cc.Process(nil, ref.EncodeUDP(ref.Msg{Type: typ, Code: 1, MID: midB, Token: tokB, Payload: []byte{code}}))
+				sim.WaitFor(3*time.Second, func() bool {
+					for _, d := range s.Log()[mark:] {
+						if m, err := ref.ParseUDP(d.Data); err == nil && (m.MID == midB || bytes.Equal(m.Token, tokB)) {
+							return true
+						}
+					}
+					return false
+				})
+				time.Sleep(200 * time.Microsecond)
+				rec.Eval(fmt.Sprintf("optionless-after-nr|%d|%v|%d", v, con, code))
+				rec.Count("optionless_requests_after_no_response", 1)
+				mu.Lock()
+				errB, ran := errs[string(tokB)]
+				mu.Unlock()
+				var reply *ref.Msg
+				for _, d := range s.Log()[mark:] {
+					if m, err := ref.ParseUDP(d.Data); err == nil && bytes.Equal(m.Token, tokB) && m.Code == code {
+						mm := m
+						reply = &mm
+					}
+				}
+				switch {
+				case !ran:
+					rec.Violation("C20/optionless-request/handler-not-run", "", c)
+				case errB != nil:
+					rec.Violation("C20/optionless-request/response-refused", fmt.Sprintf("the request carries no No-Response option (no option at all); SetResponse returned %v - the previous request on the connection had No-Response=%d", errB, v), c)
+				case reply == nil:
+					rec.Violation("C20/optionless-request/response-not-sent", fmt.Sprintf("no %d.%02d with the request's token went out", code>>5, code&31), c)
+				default:
+					rec.Count("optionless_requests_answered", 1)
+				}
+			}
+		}
+	}
+}
